@@ -226,29 +226,9 @@ impl<A: Send + 'static> Stream<A> {
                 };
             }
             result_forward_ref.assign(&s);
-            {
-                let s = s.clone();
-                let sodium_ctx2 = sodium_ctx.clone();
-                sodium_ctx.pre_eot(move || {
-                    {
-                        let mut update = node.data.update.write();
-                        let update: &mut Box<_> = &mut update;
-                        update();
-                    }
-                    let is_firing =
-                        s.with_data(|data: &mut StreamData<A>| data.firing_op.is_some());
-                    if is_firing {
-                        s.node().data.changed.store(true, Ordering::SeqCst);
-                        let s = s.clone();
-                        sodium_ctx2.pre_post(move || {
-                            s.with_data(|data: &mut StreamData<A>| {
-                                data.firing_op = None;
-                                s.node().data.changed.store(true, Ordering::SeqCst);
-                            });
-                        });
-                    }
-                });
-            }
+            // No eager update here: a node built inside a transaction is already registered as a
+            // dependent of its sources and is reached by the propagation at the end of that
+            // transaction, once all of its inputs have settled.
             s
         })
     }
